@@ -76,6 +76,26 @@ def worker(kp, job):
                         break
         if viol:
             records[-1]['viol'] = records[-1]['viol'] + viol
+    # the header clause also under a measure range (the header row of an excerpt is rebuilt by another code path)
+    try:
+        M = doc.measures_count()
+    except Exception:
+        M = 0
+    if M >= 1:
+        a = rng.randint(1, M)
+        b_ = rng.randint(a, M)
+        viol = []
+        for enc in optprops.ENCODINGS:
+            out = docs.impl_dumps(kp, doc, encoding=enc, from_measure=a, to_measure=b_)
+            if not out.startswith('ok:'):
+                continue
+            hdr = out[3:].split('\n')[0].split('\t')
+            want = ['**' + spec.PREFIX[enc] + h[2:] for h in g.headers if h in spec.SUPPORTED]
+            # (an excerpt that starts inside a split repeats the header per sub-spine - finding K5 of C08 - so only the FORM
+            # of every header cell is checked here: ** + prefix + a type of this document)
+            if any(c not in want for c in hdr) and all(c.startswith('**') for c in hdr) and not viol:
+                viol.append(('header', f'measures {a}..{b_} in {enc}: the header row is {hdr}, expected {want}', {'text': text, 'encoding': enc, 'from': a, 'to': b_}))
+        records.append(engine.rec('range-header', viol=viol, kind='range-header', key=(text, 'range-header', a, b_)))
     if idx % 31 == 0:
         records[0]['sample'] = {'text': text, 'ekern': records[1]['impl'][3:]}
     return {'records': records}
